@@ -36,6 +36,8 @@ INSTANCES = [
      "import with a mismatching version/format"),
     ("vecdb::traits::writable::WritableVec::checked_push_at", {"UnexpectedIndex"}, "checked push at the wrong index"),
     ("vecdb::traits::writable::WritableVec::checked_push", {"UnexpectedIndex"}, "checked push at the wrong index"),
+    (RAW + "update_at", {"IndexTooHigh"}, "update beyond the end"),
+    (RAW + "update", {"IndexTooHigh"}, "update beyond the end"),
     (RAW_W + "rollback", None, "rollback without a usable change record"),
     (CMP_W + "rollback", None, "rollback without a usable change record"),
 ]
